@@ -59,67 +59,76 @@ def closerOf (c : Char) : Char := if c == '(' then ')' else if c == '[' then ']'
 def LexState.flush (s : LexState) : LexState :=
   if s.tok.nonempty then { s with out := s.tok :: s.out, tok := Tok.fresh } else s
 
+/-- loop body, inside a quote context whose innermost closer is `top` -/
+def lexQuoted (s : LexState) (i : Nat) (ci : CharInfo) (top : Char) (rest : List Char) : Except LexErr LexState :=
+  if ci.c == '\\' then
+    .ok { s with tok := s.tok.update ci.c i, take := 1 }
+  else if (top == '}' || top == '`' || top == '%') && ci.c == top then
+    -- closing a brace / backtick / percent quote
+    if s.tok.nonempty then
+      if !rest.isEmpty then .ok { s with qc := rest, tok := s.tok.update ci.c i }
+      else .ok { s with qc := rest, out := s.tok :: s.out, tok := Tok.fresh }
+    else if rest.isEmpty then .ok { s with qc := rest, tok := Tok.fresh }
+    else .ok { s with qc := rest }
+  else if ci.c == top then
+    .ok { s with qc := rest, tok := s.tok.update ci.c i }
+  else
+    let qc' := if (ci.c == '`' || ci.c == '(' || ci.c == '[' || ci.c == '{' || ci.c == '"' || ci.c == '\'')
+                    && (top == '}' || top == ')' || top == ']')
+               then closerOf ci.c :: s.qc else s.qc
+    .ok { s with qc := qc', tok := s.tok.update ci.c i }
+
+/-- loop body at top level, for characters that are not quote openers or brackets -/
+def lexPlain (s : LexState) (i : Nat) (ci : CharInfo) : Except LexErr LexState :=
+  if ci.space then
+    if s.tok.nonempty && s.tok.kind != some .operator then .ok s.flush else .ok s
+  else if ci.c == '"' || ci.c == '\'' then
+    let s' := if s.tok.nonempty && s.tok.kind == some .operator then s.flush else s
+    if !s'.tok.nonempty then
+      .ok { s' with tok := s'.tok.update ci.c i (some .value), qc := [ci.c] }
+    else .error (.unexpectedQuote i)
+  else if ci.word then
+    let s' := if s.tok.nonempty && (s.tok.kind == some .operator || s.tok.kind == some .python)
+              then s.flush else s
+    if !(s'.tok.kind == none || s'.tok.kind == some .value || s'.tok.kind == some .name) then
+      .error (.unexpectedKind i)
+    else
+      let k := if isNumericChar ci.c && (s'.tok.kind == none || s'.tok.kind == some .value)
+               then TKind.value else TKind.name
+      .ok { s' with tok := s'.tok.update ci.c i (some k) }
+  else
+    let s' := if s.tok.nonempty && s.tok.kind != some .operator then s.flush else s
+    .ok { s' with tok := s'.tok.update ci.c i (some .operator) }
+
+/-- loop body at top level (no quote context open) -/
+def lexTop (s : LexState) (i : Nat) (ci : CharInfo) : Except LexErr LexState :=
+  if ci.c == '%' then
+    let s' := if s.tok.nonempty then { s with out := s.tok :: s.out } else s
+    .ok { s' with tok := Tok.opened .operator i, qc := ['%'] }
+  else if ci.c == '{' then
+    let s' := if s.tok.nonempty then { s with out := s.tok :: s.out } else s
+    .ok { s' with tok := Tok.opened .python i, qc := ['}'] }
+  else if ci.c == '`' then
+    let s' := if s.tok.nonempty then { s with out := s.tok :: s.out } else s
+    .ok { s' with tok := Tok.opened .name i, qc := ['`'] }
+  else if ci.c == '(' || ci.c == '[' then
+    if s.tok.kind == some .name || s.tok.kind == some .python then
+      .ok { s with tok := s.tok.update ci.c i (some .python), qc := [closerOf ci.c] }
+    else
+      let s' := s.flush
+      .ok { s' with out := (Tok.fresh.update ci.c i (some .context)) :: s'.out }
+  else if ci.c == ')' || ci.c == ']' then
+    let s' := s.flush
+    .ok { s' with out := (Tok.fresh.update ci.c i (some .context)) :: s'.out }
+  else lexPlain s i ci
+
 /-- one iteration of the `for i, char in enumerate(formula)` loop -/
 def lexStep (s : LexState) (i : Nat) (ci : CharInfo) : Except LexErr LexState :=
-  let c := ci.c
   if s.take > 0 then
-    .ok { s with tok := s.tok.update c i, take := s.take - 1 }
+    .ok { s with tok := s.tok.update ci.c i, take := s.take - 1 }
   else match s.qc with
-  | top :: rest =>
-    if c == '\\' then
-      .ok { s with tok := s.tok.update c i, take := 1 }
-    else if (top == '}' || top == '`' || top == '%') && c == top then
-      -- closing a brace / backtick / percent quote
-      if s.tok.nonempty then
-        if !rest.isEmpty then .ok { s with qc := rest, tok := s.tok.update c i }
-        else .ok { s with qc := rest, out := s.tok :: s.out, tok := Tok.fresh }
-      else if rest.isEmpty then .ok { s with qc := rest, tok := Tok.fresh }
-      else .ok { s with qc := rest }
-    else if c == top then
-      .ok { s with qc := rest, tok := s.tok.update c i }
-    else
-      let qc' := if (c == '`' || c == '(' || c == '[' || c == '{' || c == '"' || c == '\'')
-                      && (top == '}' || top == ')' || top == ']')
-                 then closerOf c :: s.qc else s.qc
-      .ok { s with qc := qc', tok := s.tok.update c i }
-  | [] =>
-    if c == '%' then
-      let s' := if s.tok.nonempty then { s with out := s.tok :: s.out } else s
-      .ok { s' with tok := Tok.opened .operator i, qc := ['%'] }
-    else if c == '{' then
-      let s' := if s.tok.nonempty then { s with out := s.tok :: s.out } else s
-      .ok { s' with tok := Tok.opened .python i, qc := ['}'] }
-    else if c == '`' then
-      let s' := if s.tok.nonempty then { s with out := s.tok :: s.out } else s
-      .ok { s' with tok := Tok.opened .name i, qc := ['`'] }
-    else if c == '(' || c == '[' then
-      if s.tok.kind == some .name || s.tok.kind == some .python then
-        .ok { s with tok := s.tok.update c i (some .python), qc := [closerOf c] }
-      else
-        let s' := s.flush
-        .ok { s' with out := (Tok.fresh.update c i (some .context)) :: s'.out }
-    else if c == ')' || c == ']' then
-      let s' := s.flush
-      .ok { s' with out := (Tok.fresh.update c i (some .context)) :: s'.out }
-    else if ci.space then
-      if s.tok.nonempty && s.tok.kind != some .operator then .ok s.flush else .ok s
-    else if c == '"' || c == '\'' then
-      let s' := if s.tok.nonempty && s.tok.kind == some .operator then s.flush else s
-      if !s'.tok.nonempty then
-        .ok { s' with tok := s'.tok.update c i (some .value), qc := [c] }
-      else .error (.unexpectedQuote i)
-    else if ci.word then
-      let s' := if s.tok.nonempty && (s.tok.kind == some .operator || s.tok.kind == some .python)
-                then s.flush else s
-      if !(s'.tok.kind == none || s'.tok.kind == some .value || s'.tok.kind == some .name) then
-        .error (.unexpectedKind i)
-      else
-        let k := if isNumericChar c && (s'.tok.kind == none || s'.tok.kind == some .value)
-                 then TKind.value else TKind.name
-        .ok { s' with tok := s'.tok.update c i (some k) }
-    else
-      let s' := if s.tok.nonempty && s.tok.kind != some .operator then s.flush else s
-      .ok { s' with tok := s'.tok.update c i (some .operator) }
+  | top :: rest => lexQuoted s i ci top rest
+  | [] => lexTop s i ci
 
 /-- run the loop; on an error also return the state reached (its `out` holds the tokens that the
 generator had already yielded, which downstream consumers have already seen) -/
